@@ -8,7 +8,11 @@ in pairs (one exception type per pair), on the worlds W1 / W2 (fresh process: bo
 has already booted, GEL graph retained, plus a weakly linked GEL component so that split candidates exist)
 x 2-turn sequences, with the gate of every faulted subsystem ON.  A fault is installed by replacing the
 attribute the engine really calls at that site (table SITES below) with a callable that raises; snapshot-boot
-garbage is installed as real files in the snapshot directory before the first turn.
+garbage is installed as real files in the snapshot directory before the first turn.  Two kinds of files: whole-file
+garbage (GARBAGE: nothing in it parses) and partially corrupt snapshots (`_partial_sites`: a snapshot-shaped object in
+which one section the loader consumes - store.weights, gel.edges - is valid up to its k-th entry and corrupt there,
+k = 0..n, bare or embedded in a complete snapshot body).  The fresh-boot world W2 starts with live store weights, W1
+with an empty weight map, so a load that fails half way and has already touched the live world is visible in apply.jsonl.
 
 Oracle (per execution):
   (1) every run_turn call returns a TurnResult (nothing escapes);
@@ -18,7 +22,9 @@ Oracle (per execution):
       pair the admissible baselines are the products of the two sites' baselines.  The list of admissible baselines
       per site is the table `modes` of that site; it deliberately contains every reasonable reading of
       "off or idle" so that no correct implementation is rejected (e.g. for store apply errors the baseline is a
-      store that applies nothing, for a telemetry-only failure the baseline is the undisturbed run).
+      store that applies nothing, for a telemetry-only failure the baseline is the undisturbed run; for a partially
+      corrupt snapshot the failing unit is idle at file, section or entry granularity: empty directory / loader off /
+      the same file without the corrupt section / the same file without the corrupt entries).
 
 `gel_observe` / `gel_tick`, the main snapshot write, the stage functions and the log writers are NOT declared
 fail-soft and are never injected.
@@ -223,7 +229,7 @@ def prep_state(world: str) -> Dict[str, Any]:
     state = W.make_world(base)
     st = state["store"]
     st.__class__ = WStore
-    st.w = {}
+    st.w = {} if base == "W1" else dict(LIVE_W)  # live weights a failed boot load must leave untouched
     state["memory_index"] = state["mem_index"]  # reflection writes land in the index T2 reads
     if world == "W2b":
         state["_boot_loaded"] = True  # process that has booted earlier: GEL graph of W2 is retained
@@ -378,6 +384,140 @@ def _mk_garbage(kind: str, fname: str, content: Any):
 
 for _k, (_fn, _c) in GARBAGE.items():
     _mk_garbage(_k, _fn, _c)
+
+# -- partially corrupt snapshots (late corruption) ----------------------------------------------------------
+# A snapshot-shaped object in which ONE section the boot loader consumes is well-formed up to some entry and corrupt
+# from there on (bit rot, a foreign writer, a half-migrated file).  Unlike the whole-file garbage above, the loader has
+# already done part of its work when it meets the corruption, so this is the alphabet in which "a failed best-effort
+# load is a no-op" can be told from "it raised nothing": a loader that mutates the live world before it knows that the
+# section parses leaves a half-restored world behind.  The fresh-boot world W2 carries live store weights (LIVE_W) so
+# that wiping / overwriting them shows in apply.jsonl (clamps); W1 boots with an empty weight map.
+# Admissible baselines = the failing unit idle at every granularity, everything else as if that unit were absent:
+#   file idle      empty snapshot dir / loader off
+#   section idle   the same file without the corrupt section
+#   entry idle     the same file with the corrupt entries removed from the section (entry-level corruption only)
+# (each baseline is the implementation's own behaviour on the cleaned file, so merge- and replace-style loaders,
+# loaders that reject the whole file, skip the section or skip the entry are all accepted).
+LIVE_W = {("node", "n1", "weight"): 0.875, ("node", "n2", "weight"): 0.5, ("node", "n3", "weight"): -0.875,
+          ("edge", "n1|supports|n2", "weight"): -0.9375}
+
+
+def _went(tid: str, value: Any, kind: str = "node") -> Dict[str, Any]:
+    return {"target_kind": kind, "target_id": tid, "attr": "weight", "value": value}
+
+
+_VALID_W = [_went("n1", 0.9375), _went("n3", -0.9375)]
+# corrupt entries address n2 so that a loader which reads a null value as the default 0.0 equals "entry idle"
+_BAD_W_ENTRY: Dict[str, Any] = {"value-null": _went("n2", None), "entry-text": "n2=0.5",
+                                "value-text": _went("n2", "heavy"), "value-list": _went("n2", [0.5]),
+                                "entry-null": None, "entry-number": 3}
+_BAD_W_SECTION: Dict[str, Any] = {"object": {"n1": 0.5}, "number": 7, "text": "n1"}
+
+
+def _gel_edge(a: str, b: str, w: Any) -> Dict[str, Any]:
+    k = "%s→%s" % (a, b)
+    return {"id": k, "src": a, "dst": b, "rel": "coact", "weight": w, "updated_at": None, "attrs": {}}
+
+
+# {ep1-ep2}, {ep1-ep4} and {ep1-ep2, ep1-ep4} give three different t2 records under the hybrid rerank (probed on W1/W2)
+_VALID_GEL_EDGES = [_gel_edge("ep1", "ep2", 0.5), _gel_edge("ep1", "ep4", 0.25)]
+_BAD_GEL_EDGE: Dict[str, Any] = {"weight-text": _gel_edge("ep2", "ep4", "heavy"), "weight-null": _gel_edge("ep2", "ep4", None),
+                                 "weight-list": _gel_edge("ep2", "ep4", [0.5])}
+
+
+def _gel_section(edges: List[Dict[str, Any]]) -> Dict[str, Any]:
+    return {"nodes": {n: {"id": n} for n in ("ep1", "ep2", "ep4")}, "edges": {e["id"]: e for e in edges},
+            "meta": {"schema": "v1.1", "merges": [], "splits": [], "promotions": [], "concept_nodes_count": 0,
+                     "edges_count": len(edges)}}
+
+
+_ABSENT = object()
+
+
+def _snapshot_doc(shape: str, store: Any = _MISSING, gel: Any = _MISSING) -> Dict[str, Any]:
+    """shape 'bare': only the sections given; 'full': a complete snapshot body as write_snapshot lays it out (version,
+    schema tags, every section not given is present and valid).  _ABSENT removes a section."""
+    doc: Dict[str, Any] = {}
+    if shape == "full":
+        doc = {"turn": 3, "agent": "A", "version_etag": "7", "applied": 1, "deltas": [], "schema_version": "v1",
+               "graph_schema_version": "v1.1", "store": {"weights": list(_VALID_W)}, "gel": _gel_section(_VALID_GEL_EDGES),
+               "graph": {"nodes_count": 3, "edges_count": 2, "meta": {"last_update": None}}}
+    if store is _ABSENT:
+        doc.pop("store", None)
+    elif store is not _MISSING:
+        doc["store"] = store
+    if gel is _ABSENT:
+        doc.pop("gel", None)
+        doc.pop("graph", None)
+    elif gel is not _MISSING:
+        doc["graph_schema_version"] = "v1.1"
+        doc["gel"] = gel
+    return doc
+
+
+def _write_doc(fname: str, doc: Any) -> Callable[[Env], None]:
+    def stub(env: Env) -> None:
+        with open(os.path.join(env.ex.snap_dir, fname), "w", encoding="utf-8") as f:
+            json.dump(doc, f, ensure_ascii=False)
+    return stub
+
+
+PARTIAL_FNAME = "snap_000120.json"
+PARTIAL_CLASSES = ["boot:partial:store.weights", "boot:partial:gel.edges"]
+
+
+def _mk_partial(section: str, label: str, doc: Any, cleaned: List[Tuple[str, Any]], fname: str = PARTIAL_FNAME) -> str:
+    """site = the file `doc`; `cleaned` = [(mode name, the same file with the failing unit removed)]."""
+    site = "boot:partial:%s@%s" % (section, label if fname == PARTIAL_FNAME else "%s,%s" % (label, fname))
+    if site in SITES:
+        return site
+    write = _write_doc(fname, doc)
+
+    def inject(env: Env, _exc: str) -> None:
+        write(env)
+        with contextlib.suppress(Exception):
+            if snap_mod._pick_latest_snapshot_path(env.ex.snap_dir) == os.path.join(env.ex.snap_dir, fname):
+                env.fire(site)  # the boot loader will look at this file
+
+    _site(site, inject,
+          [Mode("empty-snapshot-dir"), Mode("loader-off", stub=_loader_off)] +
+          [Mode(n, stub=_write_doc(fname, d)) for n, d in cleaned],
+          "core.run_turn boot hook / snapshot.load_latest_snapshot: a section that stops parsing part-way is not imported "
+          "(_import_store_from_snapshot returns False, GEL restore is 'tolerant'); the live world must not be half-restored",
+          worlds=FRESH, typed=False)
+    return site
+
+
+def _partial_sites(thorough: bool) -> List[str]:
+    """Enumerates: section in {store.weights, gel.edges} x corruption kind x position k of the corrupt entry among the
+    valid ones (k = number of valid entries BEFORE it) x file shape {bare, full}; plus ill-typed whole sections."""
+    out: List[str] = []
+    shapes = ("bare", "full")
+    names = [PARTIAL_FNAME] + (ALT_NAMES if thorough else [])
+    for fname in names:
+        full_alphabet = thorough and fname == PARTIAL_FNAME  # other picker rules (ALT_NAMES): the quick kinds only
+        w_kinds = list(_BAD_W_ENTRY) if full_alphabet else ["value-null", "entry-text"]
+        g_kinds = list(_BAD_GEL_EDGE) if full_alphabet else ["weight-text"]
+        for shape in shapes:
+            for kind in w_kinds:
+                for k in range(len(_VALID_W) + 1):
+                    lst = _VALID_W[:k] + [_BAD_W_ENTRY[kind]] + _VALID_W[k:]
+                    out.append(_mk_partial(
+                        "store.weights", "%s,k=%d,%s" % (kind, k, shape), _snapshot_doc(shape, store={"weights": lst}),
+                        [("section-dropped", _snapshot_doc(shape, store=_ABSENT)),
+                         ("corrupt-entries-dropped", _snapshot_doc(shape, store={"weights": list(_VALID_W)}))], fname))
+            for kind in (list(_BAD_W_SECTION) if full_alphabet else ["object"]):
+                out.append(_mk_partial(
+                    "store.weights", "section-%s,%s" % (kind, shape), _snapshot_doc(shape, store={"weights": _BAD_W_SECTION[kind]}),
+                    [("section-dropped", _snapshot_doc(shape, store=_ABSENT))], fname))
+            for kind in g_kinds:
+                for k in range(len(_VALID_GEL_EDGES) + 1):
+                    lst = _VALID_GEL_EDGES[:k] + [_BAD_GEL_EDGE[kind]] + _VALID_GEL_EDGES[k:]
+                    out.append(_mk_partial(
+                        "gel.edges", "%s,k=%d,%s" % (kind, k, shape), _snapshot_doc(shape, gel=_gel_section(lst)),
+                        [("section-dropped", _snapshot_doc(shape, gel=_ABSENT)),
+                         ("corrupt-entries-dropped", _snapshot_doc(shape, gel=_gel_section(_VALID_GEL_EDGES)))], fname))
+    return out
 
 # -- GEL maintenance passes -----------------------------------------------------------------------
 _PASS_OFF = {"M": {"graph": {"merge": {"enabled": False}}}, "S": {"graph": {"split": {"enabled": False}}},
@@ -713,7 +853,8 @@ _site("qtrace:write",
       _QTRACE_MODES, "t2/quality_trace.emit_trace ('Never raises'): try: mkdir/open/write except Exception: return",
       cfg=_shadow_cfg, requires=lambda cfg: not _q_on(cfg))
 
-BASE_SITE_NAMES = list(SITES)  # quick + thorough
+BASE_SITE_NAMES = list(SITES)  # quick + thorough; singles and pairs
+PARTIAL_QUICK = _partial_sites(False)  # quick + thorough; singles only
 
 
 def _register_thorough_sites() -> List[str]:
@@ -731,6 +872,7 @@ def _register_thorough_sites() -> List[str]:
             if s not in SITES:
                 _mk_garbage(k, alt, c)
             extra.append(s)
+    extra.extend(s for s in _partial_sites(True) if s not in PARTIAL_QUICK)
     return extra
 
 
@@ -1030,7 +1172,7 @@ def run(run: Run) -> None:
     items = []
     for world in WORLDS:
         for seq in seqs:
-            for s in names + extra_names:
+            for s in names + PARTIAL_QUICK + extra_names:
                 if _live(s, world):
                     items.append((world, seq, (s,)))
     # pairs: every unordered pair of base sites
@@ -1052,6 +1194,16 @@ def run(run: Run) -> None:
         "stages/t3/trace.emit_trace: try: logs.append({...}) except Exception: pass"
     run.notes["n_sites"] = len(names)
     run.notes["n_extra_garbage_sites"] = len(extra_names)
+    run.notes["n_partial_snapshot_sites"] = len(PARTIAL_QUICK) + len([s for s in extra_names if s.startswith("boot:partial:")])
+    run.notes["partial_snapshot_alphabet"] = {
+        "sections": PARTIAL_CLASSES, "shapes": ["bare", "full"],
+        "store.weights entry kinds": sorted({s.split("@")[1].split(",")[0] for s in PARTIAL_QUICK + extra_names
+                                             if s.startswith("boot:partial:store.weights@")}),
+        "gel.edges entry kinds": sorted({s.split("@")[1].split(",")[0] for s in PARTIAL_QUICK + extra_names
+                                         if s.startswith("boot:partial:gel.edges@")}),
+        "position_k": "0..%d valid entries before the corrupt one (store.weights), 0..%d (gel.edges)" % (
+            len(_VALID_W), len(_VALID_GEL_EDGES)),
+        "live_weights_at_boot": {"W1": 0, "W2": len(LIVE_W)}}
     run.notes["exception_types_singles"] = excs
     run.notes["exception_types_pairs"] = pair_excs
     run.notes["worlds"] = WORLDS
@@ -1062,7 +1214,9 @@ def run(run: Run) -> None:
     run.notes["unreadable_perms_enforced"] = (os.geteuid() != 0)
     run.rule = ("fault plan = (world in {W1,W2 fresh boot; W2b booted+GEL}, 2-turn sequence, 1 or 2 declared fail-soft sites, "
                 "exception type); singles: every site x every type; pairs: every unordered site pair whose gates can be open "
-                "together x type(s); fault active in both turns; non-trivial = every installed fault was actually reached "
+                "together x type(s); fault active in both turns; boot files: whole-file garbage kinds (singles and pairs) and "
+                "partially corrupt snapshots = section in {store.weights, gel.edges} x corruption kind x position k of the corrupt "
+                "entry x shape {bare, full} (singles); non-trivial = every installed fault was actually reached "
                 "(raiser called / garbage file picked by the boot loader)")
     run.pmap(_worker, items, extra=(run.scratch, excs, pair_excs), chunks=None)
     cands: Dict[str, Tuple[str, str, Any]] = {}
@@ -1089,15 +1243,19 @@ def run(run: Run) -> None:
     logging.disable(logging.NOTSET)
     fired = run.sets.get("sites_fired", set())
     from mc.runner import h64
-    never = [s for s in names + ["t3trace:emit_trace"] if h64(s.split("@")[0]) not in fired]
+    never = [s for s in names + PARTIAL_CLASSES + ["t3trace:emit_trace"] if h64(s.split("@")[0]) not in fired]
     run.notes["sites_never_reached"] = never
     if never and not run.viol:  # with violations present an early abort may legitimately hide later sites
         raise HarnessError("fault never reached at declared site(s) %s - seam rotted or gate not open" % never)
     run.assume("declared fail-soft sites = the try/except-guarded or 'never raises'-documented calls listed in coverage.sites; "
                "gel_observe/gel_tick, the main snapshot write, stage functions and log writers are not declared optional and are not injected")
     run.assume("a failure is an Exception subclass raised by the optional callable (BaseException-only types such as KeyboardInterrupt are not failures of a subsystem)")
-    run.assume("faults fail cleanly: the replaced callable raises before doing any work (partial side effects of a half-finished optional operation are not modelled)")
-    run.assume("a foreign JSON object that carries version_etag is a snapshot by definition and is not garbage; "
+    run.assume("injected callables fail cleanly: the replaced callable raises before doing any work; a half-finished optional operation is "
+               "modelled only for the boot loader, through snapshot files that are valid up to an entry and corrupt there (store.weights, gel.edges)")
+    run.assume("partially corrupt snapshot: admissible behaviours are the failing unit idle at file, section or entry granularity "
+               "(whole file ignored / corrupt section ignored / corrupt entries skipped, each as the implementation itself behaves on the cleaned file); "
+               "keeping an arbitrary prefix of a section, or altering live state while the section is rejected, is none of them")
+    run.assume("a foreign JSON object that carries version_etag is a snapshot by definition and is not garbage (its well-formed sections may be loaded); "
                + ("running as root: chmod 000 does not prevent reading, the 'unreadable' kind degenerates to non-JSON bytes" if os.geteuid() == 0 else "unreadable = chmod 000"))
     run.assume("the T3 prompt trace (stages/t3/trace.emit_trace) cannot be switched on through run_turn (the dialogue bundle it receives has no cfg, "
                "and the validator does not know its gate keys); its guard is exercised by calling emit_trace directly with the gate open");
@@ -1113,6 +1271,8 @@ def replay(case):
     for s, _ in case["plan"]:
         if s not in SITES:
             _register_thorough_sites()
+        if s not in SITES:
+            raise HarnessError("replay: unknown site %s" % s)
     d = tempfile.mkdtemp(prefix="c20r-", dir="/dev/shm" if os.path.isdir("/dev/shm") else None)
     try:
         ck = Checker(d)
